@@ -30,7 +30,7 @@ Obs(e) == /\ [i \in Ids |-> hot'[i].p] = e.hr
           /\ [i \in Ids |-> canon'[i].ver] = e.vr
           /\ [i \in Ids |-> L1Has(l1a', i)] = e.lr
 
-TInit == Init /\ b \in 1..NB /\ l = 1
+TInit == InitEmpty /\ b \in 1..NB /\ l = 1
 
 TStep ==
   /\ l <= Len(Ev) /\ l' = l + 1 /\ b' = b /\ done' = FALSE
@@ -49,6 +49,7 @@ TStep ==
      \/ o.t = "read" /\ o.flav \in {"getmeta", "exists"} /\ CanonOnly(o.id, o.flav)
      \/ o.t = "poke_l1a" /\ PokeL1a(o.id, o.v, o.tv, o.tp)
      \/ o.t = "poke_hot" /\ PokeHot(o.id, o.v, o.m, o.tv, o.tp)
+     \/ o.t = "poke_bad" /\ PokeBad(o.id)
   /\ Obs(Ev[l])
 
 TSpec == TInit /\ [][TStep]_<<vars, b, l>>
